@@ -52,7 +52,7 @@ def parse_evals(out: str):
 
 
 def model_eval(ctx, name, exprs, timeout=1200, big=False, session=False):
-    body = PRE % ("Model.SrpBig Model.SrpSession Model.SrpSessionBig" if session else "Model.SrpBig" if big else "Model.SrpCases") + "".join(f"Eval vm_compute in ({e}).\n" for e in exprs)
+    body = PRE % ("Model.SrpCases Model.SrpBig Model.SrpSession Model.SrpSessionBig" if session else "Model.SrpBig" if big else "Model.SrpCases") + "".join(f"Eval vm_compute in ({e}).\n" for e in exprs)
     name = re.sub(r"[^A-Za-z0-9_]", "_", name)
     out = coq_eval(ctx["verif"], "C02", f"{name}_{os.getpid()}", body, timeout=timeout)
     res = parse_evals(out)
